@@ -21,6 +21,10 @@ fn main() {
             for i in 0..40u64 {
                 let mut s = Src::fresh(Rng::derive(seed, 77, i));
                 let v = gen_value(&mut s, &GenOpts { depth: 2, refs: true, max_str: 40, wide_names: true }, 0);
+                // the interpreter is about a thousand times slower than the machine: the long values of the generator (strings of
+                // 64 KiB, parentheses nested 70 000 deep) are left to the native and AddressSanitizer runs
+                fn weight(v: &pdfmon::val::V) -> usize { use pdfmon::val::V; match v { V::Str(b) => b.len(), V::Name(n) => n.len(), V::Arr(a) => 1 + a.iter().map(weight).sum::<usize>(), V::Dict(d) => 1 + d.iter().map(|(k, x)| k.len() + weight(x)).sum::<usize>(), _ => 1 } }
+                if weight(&v) > 2000 { continue; }
                 let mut p = Printer::new(&mut s);
                 p.first_token();
                 p.value(&v);
